@@ -964,6 +964,8 @@ var extAliases = map[string]struct {
 	"Coins.Sub":      {"(github.com/cosmos/cosmos-sdk/types.Coins).Sub", "sdk.Coins"},
 	"Coins.IsAnyGT":  {"(github.com/cosmos/cosmos-sdk/types.Coins).IsAnyGT", "Bool"},
 	"bytes.Join":     {"bytes.Join", "Bz"},
+	"NewDecCoinsFromCoins": {"github.com/cosmos/cosmos-sdk/types.NewDecCoinsFromCoins", "sdk.DecCoins"},
+	"DecCoins.Sub":   {"(github.com/cosmos/cosmos-sdk/types.DecCoins).Sub", "sdk.DecCoins"},
 	"binary.Varint":  {"encoding/binary.Varint", "Int"},
 	"binary.Varint#1": {"encoding/binary.Varint", "Int"},
 	"merkle.HashFromByteSlices": {"github.com/cometbft/cometbft/crypto/merkle.HashFromByteSlices", "Bz"},
